@@ -1,7 +1,7 @@
 """Pipeline part (direction A): TLC enumerates Pipeline.tla behaviours for a generator configuration and prints each as a
 JSON case; the Go replayer drives the real operators and compares after every step. Mismatch classes are attributed to
 properties (DESIGN section 6)."""
-import json, os, shutil
+import json, os, shutil, sys
 import vlib
 
 # mismatch class -> properties that class is a violation of
@@ -58,7 +58,18 @@ def run(rep, pid, cfgs, modes='ctl-unsafe,ctl-safe,sync', module='Gen', replay_c
             with open(gen, 'w') as fh:
                 fh.write(r.out)
             res_path = os.path.join(d, name + '.json')
-            vlib.run_harness([replay_cmd, '-in', gen, '-out', res_path, '-modes', modes] + list(extra_args), timeout=3000)
+            hp = vlib.run_harness([replay_cmd, '-in', gen, '-out', res_path, '-modes', modes] + list(extra_args), timeout=3000, check=False)
+            if hp.returncode != 0:
+                crash = vlib.library_crash(hp)
+                if crash is None:
+                    sys.stderr.write(hp.stdout[-4000:] + hp.stderr[-8000:])
+                    raise vlib.Infra('harness %s exited %d' % (replay_cmd, hp.returncode))
+                # a panic on a goroutine the LIBRARY started killed the process while it replayed these cases: nothing can recover it (C07), and the
+                # property being checked could not be observed to hold
+                rep.add_violation(prefix + 'crash', 'the library panicked on a goroutine of its own while replaying %s (%s): the process died' % (name, modes),
+                                  replay_obj=dict(kind='crash', module=module, cfg=name, report=crash), components=['process'])
+                rep.parts['gen:' + name] = dict(tlc_states=r.distinct, crashed=True)
+                continue
             res = json.load(open(res_path))
             if res.get('skipped_after_hangs'):
                 rep.inconclusive.append('%s: %d cases skipped after %s hangs (circuit breaker)' % (name, res['skipped_after_hangs'], 12))
